@@ -188,6 +188,64 @@ SELECTOR_STORES = {
 }
 
 
+def _field_values_after(prog, b, field):
+    """values `inner.<field>` of the flow can have been given when the API method `b` returns, on its abstract paths from an
+    unknown flow: a set of ints (empty = never stored); None when E4 cannot tell (path limit, a value it cannot name)"""
+    if b is None:
+        return None
+    from .tables import mk_interp
+    from .interp import mkproj
+    RECV = ("OBJ", "recv")
+    I = mk_interp(prog, max_states=60000, opaque={"try_parse_response", "try_parse_partial_response", "try_parse_request"})
+    ty0 = b.locals[1]["ty"] if b.arg_count >= 1 else ""
+    byref = ty0.startswith("&")
+
+    def init(st):
+        st.write_leaf(RECV, (), ("term", ("in", "recv")))
+    args = [ref(RECV) if byref else {(): ("term", ("in", "recv"))}]
+    for i in range(1, b.arg_count):
+        t = b.locals[i + 1]["ty"]
+        if t.startswith("&"):
+            root = ("OBJ", "a%d" % i)
+            args.append(ref(root))
+        else:
+            args.append({(): ("term", ("in", "a%d" % i))})
+
+    def init2(st):
+        init(st)
+        for i in range(1, b.arg_count):
+            if b.locals[i + 1]["ty"].startswith("&"):
+                st.write_leaf(("OBJ", "a%d" % i), (), ("term", ("in", "a%d" % i)))
+    try:
+        outs = I.run(b, args, init2)
+    except (PathLimit, Unsupported):
+        return None
+    vals = set()
+    tail = (("f", "inner"), ("f", field))
+    for o in outs:
+        if o.kind == "cut":
+            return None
+        if o.kind != "return":
+            continue
+        leaves = []
+        if byref:
+            l = o.state.mem.get(RECV, {}).get(tail)
+            if l is not None:
+                leaves.append((tail, l))
+        else:
+            for pth, l in o.ret.items():
+                if len(pth) >= 2 and pth[-2:] == tail:
+                    leaves.append((tail, l))
+        for pth, l in leaves:
+            if l == ("term", mkproj(("in", "recv"), pth)):
+                continue
+            if l[0] == "int":
+                vals.add(l[1])
+            else:
+                return None
+    return vals
+
+
 def rule_selectors(ctx):
     """R09.6: the facts that select the edge after the head are defined by the request: at construction
     `body due` == method is POST/PUT/PATCH and `expect-100 pending` == the request has Expect: 100-continue,
@@ -278,12 +336,22 @@ def rule_selectors(ctx):
                             seen.setdefault(r_, set()).add(v_)
         badst = []
         for fn, vals in seen.items():
+            if fn in allowed and vals <= allowed[fn]:
+                continue
+            # the store is not a plain `field = constant` statement (it goes through a borrowed `&mut field`, or sits where the
+            # syntactic scan cannot tell the value): ask E4 which values the field can have when this call returns
+            sem = _field_values_after(prog, prog.find(fn), field)
+            if sem is not None:
+                vals = sem
+                seen[fn] = sem
+                if not vals:
+                    continue
             if fn not in allowed:
                 badst.append("%s can store %s" % (fn, field))
             elif not vals <= allowed[fn]:
                 badst.append("%s stores %s := %s (allowed %s)" % (fn, field, sorted(map(str, vals)), sorted(allowed[fn])))
         for fn in allowed:
-            if fn not in seen:
+            if fn not in seen or not seen[fn]:
                 badst.append("%s no longer stores %s" % (fn, field))
         ctx.check(not badst, R, "stores:" + field, "after construction `%s` is stored only in the course of %s, with constants (the store may sit in a helper)" % (
             field, ", ".join("%s:=%s" % (f.split("::")[-1], sorted(v)) for f, v in sorted(allowed.items()))), detail=badst)
